@@ -1014,6 +1014,45 @@ static void do_mem(char* line) {
     arr->metadata.array_metadata.allocated = 0;
     arr->metadata.array_metadata.end_ptr = 0;
     cbor_decref(&arr); cbor_decref(&x);
+  } else if (!strcmp(f, "growm")) {
+    /* the same for an indefinite map (pairs of 16 bytes), through cbor_map_add */
+    a_reset();
+    cbor_item_t* m = cbor_new_indefinite_map();
+    cbor_item_t* x = cbor_build_uint8(0);
+    m->metadata.map_metadata.allocated = a;
+    m->metadata.map_metadata.end_ptr = a;
+    a_reset(); a_record_only = true;
+    bool ok = cbor_map_add(m, (struct cbor_pair){.key = x, .value = x});
+    bool called = a_called; size_t sz = a_last_size;
+    a_reset();
+    if (ok) ob_printf("PUSHED");
+    else if (called) { if (sz % sizeof(struct cbor_pair)) ob_printf("ODD=%zu", sz); else ob_printf("%zu", sz / sizeof(struct cbor_pair)); }
+    else ob_printf("none");
+    if (m->metadata.map_metadata.allocated != a || m->metadata.map_metadata.end_ptr != a) ob_printf(" CHANGED");
+    if (cbor_refcount(x) != 1) ob_printf(" RC=%zu", cbor_refcount(x));
+    m->metadata.map_metadata.allocated = 0;
+    m->metadata.map_metadata.end_ptr = 0;
+    cbor_decref(&m); cbor_decref(&x);
+  } else if (!strcmp(f, "growc")) {
+    /* the chunk table of an indefinite byte string (b = 0) / text string (b = 1) whose capacity and count are faked to be a */
+    a_reset();
+    cbor_item_t* s = b ? cbor_new_indefinite_string() : cbor_new_indefinite_bytestring();
+    unsigned char* pl = hx_malloc(1); pl[0] = 'a';
+    cbor_item_t* x = b ? cbor_new_definite_string() : cbor_new_definite_bytestring();
+    if (b) cbor_string_set_handle(x, pl, 1); else cbor_bytestring_set_handle(x, pl, 1);
+    struct cbor_indefinite_string_data* d = (struct cbor_indefinite_string_data*)s->data;
+    d->chunk_capacity = a; d->chunk_count = a;
+    a_reset(); a_record_only = true;
+    bool ok = b ? cbor_string_add_chunk(s, x) : cbor_bytestring_add_chunk(s, x);
+    bool called = a_called; size_t sz = a_last_size;
+    a_reset();
+    if (ok) ob_printf("PUSHED");
+    else if (called) { if (sz % sizeof(cbor_item_t*)) ob_printf("ODD=%zu", sz); else ob_printf("%zu", sz / sizeof(cbor_item_t*)); }
+    else ob_printf("none");
+    if (d->chunk_capacity != a || d->chunk_count != a) ob_printf(" CHANGED");
+    if (cbor_refcount(x) != 1) ob_printf(" RC=%zu", cbor_refcount(x));
+    d->chunk_capacity = 0; d->chunk_count = 0;
+    cbor_decref(&s); cbor_decref(&x);
   } else ob_printf("BADCASE");
 }
 
